@@ -15,8 +15,19 @@ NamesOK(e, k) ==
     /\ (a.creator # "" /\ e.tgt_game # "bms") => b.creator = a.creator
     /\ (a.diff # "" /\ e.tgt_game # "sm") => b.diff = a.diff
 
+(* key count a converter infers from a chart: highest occupied column + 1 *)
+KeysOf(ch) == LET S == { ch.hits[i][2] \div 1000 : i \in DOMAIN ch.hits } \cup { ch.holds[i][2] \div 1000 : i \in DOMAIN ch.holds }
+              IN  IF S = {} THEN 0 ELSE (CHOOSE x \in S : \A y \in S : y <= x) + 1
+Modes(game) == IF game = "sm" THEN {3, 4, 6, 7, 8} ELSE IF game = "qua" THEN {4, 7, 8} ELSE 1..18
+(* a ValueError "Keys N isn't supported" is the documented answer exactly when some source chart has a key count *)
+(* the target game has no mode for; raised by the four converters that infer the mode                            *)
+RefusalClauses(e) ==
+    [ refusal_justified |-> /\ e.conv \in {"OsuToSM", "OsuToQua", "BMSToQua", "SMToQua"}
+                            /\ \E k \in DOMAIN e.src : KeysOf(e.src[k]) \notin Modes(e.tgt_game) ]
+
 Clauses(e) ==
     IF e.exc # "" THEN [ no_exc |-> FALSE ]
+    ELSE IF e.op = "refusal" THEN RefusalClauses(e)
     ELSE
     LET n == Len(e.src)
         okCount == Len(e.outs) = n /\ Len(e.names_out) = n
